@@ -1545,6 +1545,7 @@ def collect(src_dir):
     for fname in FILES:
         w = World(src_dir, fname)
         worlds[fname] = w
+        check_aliases(w, stats)
         setters, parsers, others = {}, {}, []
         for fn in w.funcs:
             nm = fn['name']
@@ -1585,6 +1586,44 @@ def collect(src_dir):
                     stats['unpaired_parsers'] += 1
                     stats.setdefault('unpaired_parser_names', []).append(p['name'])
     return results, stats
+
+
+def check_aliases(world, stats):
+    """inline wrappers of the headers (SetN2kSystemTime, ParseN2kRudder, ...): a wrapper is `pure` when its body is one
+    call of a SetN2kPGN/ParseN2kPGN function that forwards exactly its own parameters in order - then it is the same
+    function under another name and inherits the pair's theorems. Anything else is listed."""
+    def strip(x):
+        while x.get('kind') in ('ImplicitCastExpr', 'ParenExpr', 'ExprWithCleanups'):
+            x = x['inner'][0]
+        return x
+    pure, other = stats.setdefault('alias_wrappers_pure', []), stats.setdefault('alias_wrappers_not_pure_forwarders', [])
+    main_ids = {id(f) for f in world.funcs}
+    for name, decls in world.inline.items():
+        for fn in decls:
+            if id(fn) in main_ids or not re.match(r'(Set|Parse)N2k', name):
+                continue
+            body = [c for c in fn['inner'] if c.get('kind') == 'CompoundStmt'][0]
+            sts = [c for c in body.get('inner', []) if c.get('kind') != 'NullStmt']
+            ok = False
+            if len(sts) == 1:
+                st = sts[0]
+                if st['kind'] == 'ReturnStmt' and st.get('inner'):
+                    st = st['inner'][0]
+                st = strip(st)
+                if st.get('kind') == 'CallExpr':
+                    cal = strip(st['inner'][0])
+                    cname = cal.get('referencedDecl', {}).get('name', '')
+                    ps = [p_.get('name') for p_ in fn.get('inner', []) if p_.get('kind') == 'ParmVarDecl']
+                    args = [strip(a) for a in st['inner'][1:]]
+                    fw = [a.get('referencedDecl', {}).get('name') if a.get('kind') == 'DeclRefExpr' else None for a in args]
+                    if re.match(r'(?i)(Set|Parse)N2k(Maretron)?PGN\d+$', cname) and fw == ps:
+                        ok = True
+            key = '%s' % name
+            if ok:
+                if key not in pure:
+                    pure.append(key)
+            elif key not in other and key not in pure:
+                other.append(key)
 
 
 def emit_lean(results, gen_dir, stats):
@@ -1635,6 +1674,8 @@ def emit_lean(results, gen_dir, stats):
         L.append('  setterOK := %s' % ('true' if R['setter_ok'] else 'false'))
         L.append('  setterPrefixOnly := %s' % ('true' if R.get('setter_tail') else 'false'))
         L.append('  parserOK := %s' % ('true' if R['parser_ok'] else 'false'))
+        L.append('  signedInts := [%s]' % ', '.join(str(i) for i, n_ in enumerate(names) if R['info'][n_].get('sfield', {}).get('kind') == 'sint'))
+        L.append('  intBits := [%s]' % ', '.join(str(R['info'][n_]['sfield']['bits'] if R['info'][n_].get('sfield', {}).get('kind') in ('sint', 'uint') else 0) for n_ in names))
         L.append('')
         pair_names.append(nm)
         if not (R['setter_ok'] and has_parser):
@@ -1809,15 +1850,15 @@ def emit_glue(results, path, worlds):
     table, skipped = [], []
     for R in results:
         S, P = R.get('S'), R.get('P')
-        if not (S and P and R['setter_name'] and R['parser_name']):
+        if not (S and R['setter_name']):
             continue
         cid = ident(R['id'])
         names = R['names']
         idx = {n: i for i, n in enumerate(names)}
         w = worlds[R['file']]
         sfn = [f for f in w.funcs if f is S.fn][0]
-        pfn = [f for f in w.funcs if f is P.fn][0]
-        ssc, psc = shallow_scaled(w, sfn), shallow_scaled(w, pfn)
+        pfn = [f for f in w.funcs if f is P.fn][0] if P else None
+        ssc, psc = shallow_scaled(w, sfn), (shallow_scaled(w, pfn) if pfn else {})
         stx = shallow_text(w, sfn)
         problems = []
 
@@ -1868,8 +1909,7 @@ def emit_glue(results, path, worlds):
                 problems.append('setter parameter %s of type %s' % (nm, q))
         # ---- parser call
         par_decl, par_args, par_back = [], [], []
-        pnames = [p['name'] for p in P.params]
-        for prm in P.params:
+        for prm in (P.params if P else []):
             if prm['role'] == 'msg':
                 par_args.append('m')
                 continue
@@ -1948,7 +1988,7 @@ def emit_glue(results, path, worlds):
                     return 0
                 return {'bool': 1, 'enum': 32, 'scaled': 64}.get(fd['kind'], fd.get('mbits', fd['bits']) if fd['kind'] == 'union' else (fd['bits'] if fd['kind'] in ('uint', 'sint') else 0))
             tb, ptb = tbits(sf) or tbits(pf), tbits(pf) or tbits(sf)
-            ptext = any(pp.get('name') == nm and pp.get('qual', '').strip() == 'char *' for pp in P.params)
+            ptext = any(pp.get('name') == nm and pp.get('qual', '').strip() == 'char *' for pp in (P.params if P else []))
             en = anyf.get('enumerators')
             if en:
                 H.append('static const long long en_%s_%d[] = {%s};' % (cid, i, ', '.join('%dLL' % x for x in en)))
@@ -1968,12 +2008,13 @@ def emit_glue(results, path, worlds):
                 {'str': 1, 'ais': 2, 'var': 3}.get(tx[0], 0) if tx else 0, (tx[1] or 0) if tx else 0))
         H.append('static const Field f_%s[] = {\n%s\n};' % (cid, ',\n'.join(flines)))
         H.append('static void set_%s(tN2kMsg &m, const Val *v) {\n%s\n  %s(%s);\n}' % (cid, '\n'.join(set_lines), R['setter_name'], ', '.join(set_args)))
-        H.append('static bool parse_%s(const tN2kMsg &m, Val *v) {\n%s\n  bool r = %s(%s);\n%s\n  return r;\n}' % (
-            cid, '\n'.join(par_decl), R['parser_name'], ', '.join(par_args), '\n'.join(par_back)))
+        if P:
+            H.append('static bool parse_%s(const tN2kMsg &m, Val *v) {\n%s\n  bool r = %s(%s);\n%s\n  return r;\n}' % (
+                cid, '\n'.join(par_decl), R['parser_name'], ', '.join(par_args), '\n'.join(par_back)))
         unk = sorted({k // 8 for k, b in enumerate(R['sbits']) if b is None})
         H.append('static const int unk_%s[] = {%s};' % (cid, ', '.join(map(str, unk + [-1]))))
-        table.append('  {"%s", %dUL, f_%s, %d, set_%s, parse_%s, %s, %s, %d, unk_%s, %d}' % (
-            R['id'], R['pgn'] or 0, cid, len(names), cid, cid, 'true' if R['setter_ok'] else 'false', 'true' if R['parser_ok'] else 'false',
+        table.append('  {"%s", %dUL, f_%s, %d, set_%s, %s, %s, %s, %d, unk_%s, %d}' % (
+            R['id'], R['pgn'] or 0, cid, len(names), cid, ('parse_' + cid) if P else 'nullptr', 'true' if R['setter_ok'] else 'false', 'true' if R['parser_ok'] else 'false',
             (len(R['sbits']) // 8) if R.get('setter_tail') else -1, cid, len(unk)))
         H.append('')
     H.append('static const Pair pairs[] = {\n%s\n};' % ',\n'.join(table))
@@ -2001,6 +2042,8 @@ def run(src_dir, gen_dir):
                  items_translated=sum(1 for R in results if R['setter_ok']) + sum(1 for R in results if R['parser_ok']))
     skipped = emit_glue(results, os.path.join(VERIF, 'build', 'gen', 'layout_glue.h'), worlds)
     stats['harness_glue_skipped'] = ['%s: %s' % (i, '; '.join(p)) for i, p in skipped]
+    stats['alias_wrappers_not_pure_forwarders'] = sorted(set(stats.get('alias_wrappers_not_pure_forwarders', [])) - set(stats.get('alias_wrappers_pure', [])))
+    stats['alias_wrappers_pure'] = len(stats.get('alias_wrappers_pure', []))
     return stats
 
 
